@@ -3,7 +3,7 @@
    correspondence check of harness/props/c05.py (every column of every row, strain_values, first-run count).
    The theorems below are the universally quantified structural part.  Only statements, `exact`, Print Assumptions. *)
 From Coq Require Import ZArith QArith List Bool.
-From PL Require Import Rainflow.Model HCM.Model HCM.Load HCM.Sim HCM.RecThm HCM.Full HCM.FullThm.
+From PL Require Import Rainflow.Model HCM.Model HCM.Load HCM.Sim HCM.RecThm HCM.Select HCM.Full HCM.Chunks HCM.FullThm.
 Import ListNotations.
 Open Scope Z_scope.
 
@@ -66,6 +66,36 @@ Theorem multipoint_is_pointwise cs j :
   map (proj_rec 1 cs j) (mrecords cs (mtrace 1 cs s)) = zrecords (ztrace (map (fun x => at_ j cs * x) s)).
 Proof. exact (FullThm.multipoint_is_pointwise cs j). Qed.
 
+(* the hypothesis is needed for the code as it is (findings C05-hcm-minmax-strain-first-node, C05-hysteresis-minmax-first-node) *)
+Theorem multipoint_first_node_refuted : exists cs j s, (j < length cs)%nat /\ 0 < at_ j cs /\
+  map (proj_rec 1 cs j) (mrecords cs (mtrace 1 cs s)) <> zrecords (ztrace (map (fun x => at_ j cs * x) s)).
+Proof. exact FullThm.multipoint_first_node_refuted. Qed.
+(* recorder variants: pwc / pwl = true when the corner points of a closed hysteresis / the running strain extremes are selected
+   for every assessment point separately (the repairs); false/false is the model above.  Only what a variant still compares at
+   point 0 has to be ordered alike by point j *)
+Theorem variant_ff_is_the_code cs evs : mrecords_v cs false false evs = mrecords cs evs.
+Proof. exact (FullThm.mrecords_v_ff cs evs). Qed.
+Theorem multipoint_is_pointwise_variants cs j :
+  (j < length cs)%nat -> 0 < at_ j cs -> forall pwc pwl s,
+  cmp_agree_v cs j pwc pwl (mzero cs) (mzero cs) (mtrace 1 cs s) ->
+  map (proj_rec 1 cs j) (mrecords_v cs pwc pwl (mtrace 1 cs s)) = zrecords (ztrace (map (fun x => at_ j cs * x) s)).
+Proof. exact (FullThm.multipoint_is_pointwise_v cs j). Qed.
+(* the repaired recorder: the second sentence of the property at full strength, no hypothesis on the sequence *)
+Theorem multipoint_is_pointwise_repaired cs j :
+  (j < length cs)%nat -> 0 < at_ j cs -> forall s,
+  map (proj_rec 1 cs j) (mrecords_v cs true true (mtrace 1 cs s)) = zrecords (ztrace (map (fun x => at_ j cs * x) s)).
+Proof. exact (FullThm.multipoint_is_pointwise_repaired cs j). Qed.
+(* the load history fed in chunks, process(chunk_1, flush_1) ... process(chunk_k, flush_k): the same two statements *)
+Theorem chunked_multipoint_is_pointwise_variants cs j :
+  (j < length cs)%nat -> 0 < at_ j cs -> forall pwc pwl chunks,
+  cmp_agree_v cs j pwc pwl (mzero cs) (mzero cs) (mctrace 1 cs chunks) ->
+  map (proj_rec 1 cs j) (mrecords_v cs pwc pwl (mctrace 1 cs chunks)) = zrecords (zctrace (map_chunks (fun x => at_ j cs * x) chunks)).
+Proof. exact (FullThm.chunked_multipoint_is_pointwise_v cs j). Qed.
+Theorem chunked_multipoint_is_pointwise_repaired cs j :
+  (j < length cs)%nat -> 0 < at_ j cs -> forall chunks,
+  map (proj_rec 1 cs j) (mrecords_v cs true true (mctrace 1 cs chunks)) = zrecords (zctrace (map_chunks (fun x => at_ j cs * x) chunks)).
+Proof. exact (FullThm.chunked_multipoint_is_pointwise_repaired cs j). Qed.
+
 (* derived recorder columns; Memory-3 rows: zero means, R = -1, not closed, symmetric *)
 Theorem derived_columns evs r : In r (zrecords evs) ->
   let '(sa, sm, ea, em, R) := derived r in
@@ -96,6 +126,12 @@ Print Assumptions mirror_strain_values.
 Print Assumptions mirror_int_law.
 Print Assumptions mirror_lf_refuted.
 Print Assumptions multipoint_is_pointwise.
+Print Assumptions multipoint_first_node_refuted.
+Print Assumptions variant_ff_is_the_code.
+Print Assumptions multipoint_is_pointwise_variants.
+Print Assumptions multipoint_is_pointwise_repaired.
+Print Assumptions chunked_multipoint_is_pointwise_variants.
+Print Assumptions chunked_multipoint_is_pointwise_repaired.
 Print Assumptions derived_columns.
 Print Assumptions lf_extremes_bracket_refuted.
 Print Assumptions lf_extremes_bracket_memory3_refuted.
